@@ -61,9 +61,12 @@ func (db *DB) handleMessages(ctx context.Context, sub event.Subscription) {
 					//
 					// conficts occur when a user updates a document
 					// while a merge is in progress.
-					for i := 0; i < db.MaxTxnRetries(); i++ {
+					//
+					// The merge is retried until it goes through: giving up after a number of
+					// conflicts would drop the commit, nothing would ever merge it again.
+					for {
 						err = db.executeMerge(ctx, col, evt)
-						if errors.Is(err, corekv.ErrTxnConflict) {
+						if errors.Is(err, corekv.ErrTxnConflict) && ctx.Err() == nil {
 							continue // retry merge
 						}
 						break // merge success or error
